@@ -58,11 +58,14 @@ func (f *Subtract) Call(s *slip.Scope, args slip.List, depth int) (dif slip.Obje
 				case slip.DoubleFloat:
 					dif = -td
 				case *slip.LongFloat:
-					dif = (*slip.LongFloat)((*big.Float)(td).Neg((*big.Float)(td)))
+					var z big.Float
+					dif = (*slip.LongFloat)(z.Neg((*big.Float)(td)))
 				case *slip.Bignum:
-					dif = (*slip.Bignum)((*big.Int)(td).Neg((*big.Int)(td)))
+					var z big.Int
+					dif = (*slip.Bignum)(z.Neg((*big.Int)(td)))
 				case *slip.Ratio:
-					dif = (*slip.Ratio)((*big.Rat)(td).Neg((*big.Rat)(td)))
+					var z big.Rat
+					dif = (*slip.Ratio)(z.Neg((*big.Rat)(td)))
 				case slip.Complex:
 					dif = slip.Complex(-complex128(td))
 				}
@@ -80,14 +83,14 @@ func (f *Subtract) Call(s *slip.Scope, args slip.List, depth int) (dif slip.Obje
 			dif = dif.(slip.DoubleFloat) - ta
 		case *slip.LongFloat:
 			syncFloatPrec(ta, dif.(*slip.LongFloat))
-			dif = (*slip.LongFloat)(((*big.Float)(dif.(*slip.LongFloat))).Sub(
-				(*big.Float)(dif.(*slip.LongFloat)),
-				(*big.Float)(ta)),
-			)
+			var z big.Float
+			dif = (*slip.LongFloat)(z.Sub((*big.Float)(dif.(*slip.LongFloat)), (*big.Float)(ta)))
 		case *slip.Bignum:
-			dif = (*slip.Bignum)(((*big.Int)(dif.(*slip.Bignum))).Sub((*big.Int)(dif.(*slip.Bignum)), (*big.Int)(ta)))
+			var z big.Int
+			dif = (*slip.Bignum)(z.Sub((*big.Int)(dif.(*slip.Bignum)), (*big.Int)(ta)))
 		case *slip.Ratio:
-			dif = ratReduce(((*big.Rat)(dif.(*slip.Ratio))).Sub((*big.Rat)(dif.(*slip.Ratio)), (*big.Rat)(ta)))
+			var z big.Rat
+			dif = ratReduce(z.Sub((*big.Rat)(dif.(*slip.Ratio)), (*big.Rat)(ta)))
 		case slip.Complex:
 			dif = slip.Complex(complex128(dif.(slip.Complex)) - complex128(ta))
 		}
